@@ -90,9 +90,14 @@ pub fn generate(
             non_predicate_param_indexer
                 .indexed_type_params
                 .keys()
-                .chain(non_predicate_param_indexer.indexed_const_params.keys())
                 .map(|param_ident| -> syn::GenericParam { syn::parse_quote!(#param_ident) }),
         )
+        .chain(non_predicate_param_indexer.indexed_const_params.iter().map(
+            |(param_ident, (_, param))| -> syn::GenericParam {
+                let ty = &param.ty;
+                syn::parse_quote!(const #param_ident: #ty)
+            },
+        ))
         .collect();
     // Remove unused params end
 
